@@ -114,7 +114,7 @@ static Outcome run(tape_t const& tape)
     Case c = decode(t);
     vt::install_vt_hook();
     vt::Sched s;
-    s.timeouts_only_when_idle = c.avoid_stale;
+    s.discard_on_stale_timed = c.avoid_stale;    // (F12 shape: run not judged; timeouts race notifications freely otherwise)
     TrackedLock L;
     pika::condition_variable_any cv;
     std::vector<pika::stop_source> src(static_cast<std::size_t>(c.nsrc));
@@ -209,6 +209,7 @@ static Outcome run(tape_t const& tape)
         return d;
     };
     s.run(t);
+    if (s.must_discard()) { Outcome dsc; dsc.kind = Outcome::DISCARD; dsc.counters["avoided"] = 1; return dsc; }
     Outcome out;
     if (!fail.empty())
     {
